@@ -596,7 +596,15 @@ class SVGPath(SVGShape, SVGCommandSeq):
             # if we modified cmd to pass *very* close to subpath start snap to it
             # eliminates issues with not-quite-closed shapes due float imprecision
             next_pos = _next_pos(curr_pos, new_cmd, new_cmd_args)
-            if next_pos != subpath_start and next_pos.almost_equals(subpath_start):
+            # ... except for an arc that sets out from the subpath start: moved onto its
+            # own start it would be zero-length, and a whole ellipse drawn as one large
+            # arc ending a hair from where it began would vanish
+            full_turn = new_cmd in ("A", "a") and curr_pos == subpath_start
+            if (
+                next_pos != subpath_start
+                and next_pos.almost_equals(subpath_start)
+                and not full_turn
+            ):
                 new_cmd, new_cmd_args = _move_endpoint(
                     curr_pos, new_cmd, new_cmd_args, subpath_start
                 )
